@@ -432,19 +432,23 @@ class C12(Machine):
                         sim.clean('computed')
                         ctx.stats.probe('gave_up_after_fault')
                         ctx.event(k + '/giveup')
-                        return
-                    if op.get('giveup') == 'ignore':
+                        got = None
+                    elif op.get('giveup') == 'ignore':
                         # the caller neither repeats the operation nor
                         # resets the object, it just carries on: nothing
                         # half-done may be taken for done later
                         ctx.stats.probe('carried_on_after_fault')
                         ctx.event(k + '/ignored')
-                        return
-                    got = self._observe(ctx, cfg, obj, op, srcs, freqs)
-                want = self._want(ctx, cfg, obj, op, srcs, freqs)
-                self._cmp(ctx, got, want, 'history_dependence', k, k,
-                          f'{k} on object {obj.id}')
-                ctx.event(k, {'t': obj.id, 'out': _sh(got)})
+                        got = None
+                    else:
+                        got = self._observe(ctx, cfg, obj, op, srcs, freqs)
+                # (no early return: the state and independence checks at the
+                # end of the step apply to a given-up operation as well)
+                if got is not None:
+                    want = self._want(ctx, cfg, obj, op, srcs, freqs)
+                    self._cmp(ctx, got, want, 'history_dependence', k, k,
+                              f'{k} on object {obj.id}')
+                    ctx.event(k, {'t': obj.id, 'out': _sh(got)})
             elif k == 'partial':
                 _ = _outcome(lambda: sim.misfit)
                 if op['how'] == 'keepresults':
